@@ -46,7 +46,8 @@ def parseCirc (s : String) : Option Circ :=
     let c ← c.toNat?
     let ip ← ofHex? ip
     let p ← p.toNat?
-    pure { cid := c, hopIp := ip, hopPort := p, e2e := e == "1" }
+    let t ← e.toNat?
+    pure { cid := c, hopIp := ip, hopPort := p, ctype := t }
   | _ => none
 
 def parseInfo (s : String) : Option (Bool × Bytes) :=
